@@ -419,3 +419,21 @@ func (v *VerifC15Chan) QueueFor(id device.ID, n *com.Packet) (found, viaHost boo
 	s.queue(n)
 	return true, len(v.Host.send) > before && s != v.Host
 }
+
+// VerifC15HelloKeys writes a hello like VerifC15HelloPayload(n, id, true) and returns the client's
+// KeyPair completed with the server's public key (what keySessionSync does with the registration
+// answer): the pair the client uses from then on.
+func (e *VerifC15Env) VerifC15HelloKeys(n *com.Packet, id device.ID) (data.KeyPair, error) {
+	s := &Session{ID: id, Device: local.Device.Machine}
+	s.Device.ID = id
+	s.writeDeviceInfo(infoHello, n)
+	s.keySessionGenerate(n)
+	k := s.keys
+	if err := k.FillPublic(e.S.Keys.Public); err != nil {
+		return k, err
+	}
+	return k, nil
+}
+
+// SessionOf returns the registered Session of a device (nil when there is none).
+func (e *VerifC15Env) SessionOf(i device.ID) *Session { return e.S.Session(i) }
